@@ -176,6 +176,7 @@ def unit_observer(meth, fired):
             args = [VOpaque('Deferred', 9402)]
         else:
             args = []
+        stored0 = H[('f', so.oid, '_fired')]        # (captured before the call: the path object is updated in place)
         outs = ex.getattr_v(path, so, meth)
         outs = ex.call(outs[0][0], outs[0][1], args, {})
         for p, r in outs:
@@ -196,7 +197,7 @@ def unit_observer(meth, fired):
                 ctx.oblige('post.returns_fresh_deferred', p, B(okd))
                 if fired:
                     ctx.oblige('post.late_request_fired_immediately_with_stored_value', p,
-                               B(len(firedlog) == 1 and okd and firedlog[0][0] is alloc[0] and firedlog[0][2] is H[('f', so.oid, '_fired')]),
+                               B(len(firedlog) == 1 and okd and firedlog[0][0] is alloc[0] and firedlog[0][2] is stored0 and f1 is stored0),
                                clause='requests made after the event are notified exactly once')
                 else:
                     ctx.oblige('post.early_request_is_remembered_not_fired', p,
@@ -207,7 +208,7 @@ def unit_observer(meth, fired):
                 if fired == 'mid':
                     pass
                 elif fired:
-                    ctx.oblige('post.second_fire_is_a_no_op', p, zand(B(len(firedlog) == 0), B(len(na) == 0), B(f1 is H[('f', so.oid, '_fired')])),
+                    ctx.oblige('post.second_fire_is_a_no_op', p, zand(B(len(firedlog) == 0), B(len(na) == 0), B(f1 is stored0)),
                                clause='nothing fires twice')
                 else:
                     ctx.oblige('post.fire_notifies_every_remembered_request', p,
